@@ -1,7 +1,7 @@
 (* C05 — Decoders accept only well-formed COSE of their own type.
    Statements only (copied from coq/theories by bin/mkprops); each proof is `exact <lemma>`. *)
 From Coq Require Import Ascii String ZArith List Bool Permutation.
-From GoCose Require Import Bytes Cbor CborProofs Res GoVal Obs Ecdsa Fx Headers RulesTie Enc Dec Msg HashEnv Key SigVer Run TbsProofs FlowProofs DecProofs KeyProofs HdrProofs NoPanic MoreProofs.
+From GoCose Require Import Bytes Cbor CborProofs Res GoVal Obs Ecdsa Fx Headers RulesTie Enc Dec Msg HashEnv Key SigVer Run TbsProofs FlowProofs DecProofs CsigList KeyProofs HdrProofs NoPanic MoreProofs.
 From GoCose.Gen Require Import Generated.
 Import ListNotations.
 Open Scope Z_scope.
@@ -128,3 +128,57 @@ Theorem C05_dec_nodup :
   forall x strip g, dec strip x = Acc g -> gv_nodup g = true.
 Proof. exact dec_nodup. Qed.
 Print Assumptions C05_dec_nodup.
+
+(* the countersignature part of the unprotected-bucket decoder restated with top-level functions (proved equal to the definition used everywhere else) *)
+Theorem C05_dec_unprotected_unfold :
+  forall f u,
+  dec_unprotected (S f) u =
+  match u with
+  | WMap _ l =>
+      let* ks := labels_pass l in
+      if negb (keys_nodup ks) then Rej EOther
+      else
+        let* vs := dec_uvalues f l ks in
+        let m := zip_flat ks vs in
+        if validate_params m false then Acc m else Rej EOther
+  | _ => Rej EOther
+  end.
+Proof. exact dec_unprotected_unfold. Qed.
+Print Assumptions C05_dec_unprotected_unfold.
+
+(* a list of countersignatures is accepted exactly when every element is, and holds at every position the countersignature decoded from the element at that position *)
+Theorem C05_dec_sig_list_positional :
+  forall f l cs,
+  dec_sig_list f l = Acc cs <-> Forall2 (elem_ok f) l cs.
+Proof. exact dec_sig_list_positional. Qed.
+Print Assumptions C05_dec_sig_list_positional.
+
+Theorem C05_dec_sig_list_nth :
+  forall f l cs i y,
+  dec_sig_list f l = Acc cs -> nth_error l i = Some y ->
+  exists c, nth_error cs i = Some c /\ dec_sig_at f (strip_sd y) = Acc c.
+Proof. exact dec_sig_list_nth. Qed.
+Print Assumptions C05_dec_sig_list_nth.
+
+Theorem C05_dec_sig_list_length :
+  forall f l cs, dec_sig_list f l = Acc cs -> length cs = length l.
+Proof. exact dec_sig_list_length. Qed.
+Print Assumptions C05_dec_sig_list_length.
+
+(* the value under label 7 / 11 is one object or such a list *)
+Theorem C05_dec_csig_value_cases :
+  forall f v g,
+  dec_csig_value_at f v = Acc g ->
+  dec_sig_at f (strip_sd v) = Acc g \/
+  exists w y l cs, strip_sd v = WArr w (y :: l) /\ g = GCsigs cs /\ Forall2 (elem_ok f) (y :: l) cs.
+Proof. exact dec_csig_value_cases. Qed.
+Print Assumptions C05_dec_csig_value_cases.
+
+Theorem C05_csig_list_example :
+  let el k := WArr W0 [WStr false W0 [161; 4; 65; k]; WMap W0 []; WStr false W0 [k; 238]] in
+  match dec_csig_value_at 5 (WArr W0 [el 97; el 98; el 99]) with
+  | Acc (GCsigs [GCsig _ _ _ _ (Some [97; 238]); GCsig _ _ _ _ (Some [98; 238]); GCsig _ _ _ _ (Some [99; 238])]) => True
+  | _ => False
+  end.
+Proof. exact csig_list_example. Qed.
+Print Assumptions C05_csig_list_example.
